@@ -8,7 +8,9 @@ sources are the single source of truth.
 keys: props (required), tier (quick|thorough, default quick), cfg (comma list, default main),
 timeout (s), mem (GB), required (yes|no, default yes in quick / no in thorough), expect (pass|fail),
 kf (known-finding region id), pick (group:k -> quick tier runs only k seed-chosen members of the group),
-inst, bounds, extra (extra kani flags, space separated in quotes), qtier_cfg (cfgs only in quick)
+inst, bounds, extra (extra kani flags, space separated in quotes),
+native_domain ("i32:0..32,i32:0..32": the harness's kani::any() calls and their small finite ranges; lets the
+engine confirm a failure natively by enumerating that domain when Kani's own trace extraction hits its caps)
 """
 import os, re, glob, random, shlex
 
@@ -69,6 +71,7 @@ def _parse_file(path, modname, incrate):
                         "bounds": kv.get("bounds", ""),
                         "unwind": unwind,
                         "extra": shlex.split(kv.get("extra", "")),
+                        "native_domain": kv.get("native_domain"),
                         "file": os.path.relpath(path, VERIF),
                     })
         i += 1
